@@ -364,6 +364,24 @@ class Ctx:
             val = coerce_to_shape(val, parse_shape(rsh), st)
         st.env["result"] = val
         ev = Eval(self, self.module, spec=True)
+        ph = c.get("post_hints", [])
+        if isinstance(ph, dict):
+            # keyed by the ordinal of the return statement in source order ('*' = every return)
+            rets = [n_ for n_ in ast.walk(self.fdef) if isinstance(n_, ast.Return)]
+            rets.sort(key=lambda n_: (n_.lineno, n_.col_offset))
+            k_ = next((i for i, n_ in enumerate(rets) if n_ is node), None)
+            ph = list(ph.get("*", [])) + list(ph.get(k_, []))
+        for h, tag in self.clauses(ph):
+            try:
+                g = ev.spec_bool(h, st)
+            except Unsupported as e:
+                if "unresolved name" in str(e):
+                    continue
+                raise
+            self.cur_tag = tag
+            self.oblig("hint at return: %s" % h, st, g, node, h)
+            self.cur_tag = None
+            st.pc.append(g)
         for i, (e, tag) in enumerate(self.clauses(c.get("ensures", []))):
             g = ev.spec_bool(e, st)
             self.cur_tag = tag
@@ -371,6 +389,38 @@ class Ctx:
             self.cur_tag = None
         for p in c.get("unmodified", []):
             pass
+
+
+class LemmaCtx(Ctx):
+    """a lemma over contracts: fresh variables, hypotheses and a goal in the specification language (no code)"""
+
+    def __init__(self, name, lemma, registry, budget=10.0, prop=None):
+        self.lemma = lemma
+        qual = lemma["context"]
+        Ctx.__init__(self, qual, {"params": {}, "spec_funs": lemma.get("spec_funs", {})}, registry, budget=budget, label=name, prop=prop)
+
+    def run(self):
+        st = State()
+        facts = []
+        for v, shs in self.lemma.get("vars", {}).items():
+            sh = parse_shape(shs)
+            self._declare_enums(sh)
+            st.env[v] = fresh(sh, v, facts)
+        st.pc.extend(facts)
+        self.old_env = dict(st.env)
+        ev = Eval(self, self.module, spec=True)
+        for h in self.lemma.get("hyps", []):
+            st.pc.append(ev.spec_bool(h, st))
+        s = z3.Solver()
+        s.set("timeout", 5000)
+        s.add(*st.pc)
+        self.requires_sat = str(s.check())
+        for h in self.lemma.get("steps", []):
+            g = ev.spec_bool(h, st)
+            self.oblig("lemma step: %s" % h, st, g, None, h)
+            st.pc.append(g)
+        for g in self.lemma["goal"] if isinstance(self.lemma["goal"], list) else [self.lemma["goal"]]:
+            self.oblig("lemma: %s" % g, st, ev.spec_bool(g, st), None, g)
 
 
 def coerce_to_shape(val, sh, st):
@@ -434,6 +484,22 @@ def spec_function_lemmas(hyps, goal, nonlinear=True):
                                            z3.ForAll([k], z3.Implies(z3.And(k >= a.arg(1), k < a.arg(2)),
                                                                      z3.Select(a.arg(0), k) == z3.Select(b.arg(0), k)))),
                                     a == b))
+    # |x| written as ite(x >= 0, x, -x): the square of it is the square of x (saves the solver a case split under a product)
+    if nonlinear:
+        seen = set()
+        stack = list(hyps) + [goal]
+        while stack:
+            t = stack.pop()
+            if t.get_id() in seen or z3.is_quantifier(t) or not z3.is_app(t):
+                continue
+            seen.add(t.get_id())
+            if t.decl().kind() == z3.Z3_OP_ITE and t.sort().kind() in (z3.Z3_REAL_SORT, z3.Z3_INT_SORT):
+                c, a, b = t.children()
+                if z3.is_app(c) and c.decl().kind() in (z3.Z3_OP_GE, z3.Z3_OP_LE) and c.num_args() == 2 \
+                        and z3.is_app(b) and z3.simplify(a + b).eq(z3.simplify(a - a)):
+                    extra.append(t * t == a * a)
+                    extra.append(t >= 0)
+            stack.extend(t.children())
     # rdiv(x, y): instances of the defining equation and of derived (valid) facts of real division
     divs = ground_apps(list(hyps) + [goal] + extra, "rdiv")
     zero = z3.RealVal(0)
@@ -486,6 +552,16 @@ def skolemize(hyps, goal):
             goal = qs[0]
         else:
             break
+    if sk:
+        # any instance of a hypothesis is a sound extra hypothesis: instantiate the universally quantified
+        # hypotheses whose bound variables carry the same names (and sorts) as the goal's at the goal's constants
+        inst = []
+        for h in hyps:
+            if z3.is_quantifier(h) and h.is_forall():
+                keys = [(h.var_name(i).split("!")[0], str(h.var_sort(i))) for i in range(h.num_vars())]
+                if all(k in sk for k in keys):
+                    inst.append(z3.substitute_vars(h.body(), *reversed([sk[k] for k in keys])))
+        hyps.extend(inst)
     return hyps, goal
 
 
@@ -586,7 +662,7 @@ def ground_def_instances(terms, defs, rounds=3):
     for _ in range(rounds):
         new = []
         for d in defs:
-            if d.num_patterns() == 0:
+            if not z3.is_quantifier(d) or d.num_patterns() == 0:
                 continue
             pat = d.pattern(0).arg(0)
             nv = d.num_vars()
@@ -618,11 +694,67 @@ def ground_def_instances(terms, defs, rounds=3):
     return out
 
 
+def abstract_atoms(terms):
+    """replace every maximal non-arithmetic numeric subterm (array reads, uninterpreted applications such as rdiv / sqrt /
+    Sum, integer-to-real casts) by a fresh variable (the same term gets the same variable).  The result is a pure
+    polynomial problem that is *weaker* than the original one; z3's nlsat decides it."""
+    cache = {}
+    ARITH = {z3.Z3_OP_ADD, z3.Z3_OP_SUB, z3.Z3_OP_MUL, z3.Z3_OP_UMINUS, z3.Z3_OP_LE, z3.Z3_OP_GE, z3.Z3_OP_LT, z3.Z3_OP_GT,
+             z3.Z3_OP_EQ, z3.Z3_OP_DISTINCT, z3.Z3_OP_AND, z3.Z3_OP_OR, z3.Z3_OP_NOT, z3.Z3_OP_IMPLIES, z3.Z3_OP_ITE,
+             z3.Z3_OP_IFF, z3.Z3_OP_XOR, z3.Z3_OP_TRUE, z3.Z3_OP_FALSE, z3.Z3_OP_ANUM}
+    has_int = [False]
+
+    def walk(t):
+        i = t.get_id()
+        if i in cache:
+            return cache[i]
+        if z3.is_quantifier(t):
+            raise z3.Z3Exception("quantifier")
+        k = t.decl().kind()
+        numeric = t.sort().kind() in (z3.Z3_REAL_SORT, z3.Z3_INT_SORT)
+        if z3.is_rational_value(t) or z3.is_int_value(t):
+            r = t
+        elif k == z3.Z3_OP_DIV and (z3.is_rational_value(t.arg(1)) or z3.is_int_value(t.arg(1))) and t.sort().kind() == z3.Z3_REAL_SORT:
+            r = walk(t.arg(0)) / t.arg(1)
+        elif k in ARITH and (numeric or t.sort().kind() == z3.Z3_BOOL_SORT) and \
+                all(c.sort().kind() in (z3.Z3_REAL_SORT, z3.Z3_INT_SORT, z3.Z3_BOOL_SORT) for c in t.children()):
+            r = t.decl()(*[walk(c) for c in t.children()]) if t.num_args() else t
+        elif numeric:
+            if t.sort().kind() == z3.Z3_INT_SORT:
+                has_int[0] = True
+            r = z3.Const("atom!%d" % i, t.sort()) if not (z3.is_const(t) and k == z3.Z3_OP_UNINTERPRETED) else t
+            if t.sort().kind() == z3.Z3_INT_SORT:
+                has_int[0] = True
+        elif t.sort().kind() == z3.Z3_BOOL_SORT:
+            r = z3.Const("atomb!%d" % i, z3.BoolSort()) if not z3.is_const(t) else t
+        else:
+            raise z3.Z3Exception("non-numeric term")
+        cache[i] = r
+        return r
+    return [walk(t) for t in terms], has_int[0]
+
+
+def nlsat_refutes(hyps, goal, ms):
+    """True iff the polynomial abstraction of hyps /\ not goal is unsatisfiable"""
+    try:
+        ab, has_int = abstract_atoms(list(hyps) + [goal])
+    except z3.Z3Exception:
+        return False
+    try:
+        s = z3.Tactic("qfnra-nlsat").solver() if not has_int else z3.Solver()
+        s.set("timeout", int(ms))
+        s.add(*ab[:-1])
+        s.add(z3.Not(ab[-1]))
+        return s.check() == z3.unsat
+    except z3.Z3Exception:
+        return False
+
+
 _umul = z3.Function("umul", z3.RealSort(), z3.RealSort(), z3.RealSort())
 _umuli = z3.Function("umuli", z3.IntSort(), z3.IntSort(), z3.IntSort())
 
 
-def abstract_mul(terms):
+def abstract_mul(terms, flatten=True):
     """replace every product of two non-numeral factors by an uninterpreted (commutative) function: the result is
     *weaker* than the original VC, so refuting it refutes the original; congruence then proves equalities between
     syntactically corresponding nonlinear expressions without invoking the nonlinear solver."""
@@ -640,8 +772,17 @@ def abstract_mul(terms):
             body = walk(z3.substitute_vars(t.body(), *reversed(vs)))
             r = (z3.ForAll if t.is_forall() else z3.Exists)(vs, body) if not t.is_lambda() else t
         elif z3.is_app(t) and t.num_args() > 0:
-            ch = [walk(c) for c in t.children()]
             if t.decl().kind() == z3.Z3_OP_MUL:
+                # canonical form: nested products are flattened completely, factors sorted, folded to the left
+                facs = []
+                stk = list(t.children())
+                while stk:
+                    c = stk.pop()
+                    if flatten and z3.is_app(c) and c.decl().kind() == z3.Z3_OP_MUL:
+                        stk.extend(c.children())
+                    else:
+                        facs.append(walk(c))
+                ch = facs
                 nums = [c for c in ch if isnum(c)]
                 syms = [c for c in ch if not isnum(c)]
                 if len(syms) >= 2:
@@ -655,10 +796,14 @@ def abstract_mul(terms):
                     for c in nums:
                         acc = c * acc
                     r = acc
+                elif len(syms) == 1:
+                    r = syms[0]
+                    for c in nums:
+                        r = c * r
                 else:
-                    r = t.decl()(*ch)
+                    r = t
             else:
-                r = t.decl()(*ch)
+                r = t.decl()(*[walk(c) for c in t.children()])
         else:
             r = t
         cache[i] = r
@@ -678,13 +823,10 @@ def prove1(hyps2, goal2, budget):
     t0 = time.time()
     K = max(3, int(budget / 3))
     RL = 3000000 if budget <= 30 else 10000000
-    lem = spec_function_lemmas(hyps2, goal2)
-    lem0 = spec_function_lemmas(hyps2, goal2, nonlinear=False)
-    defs = relevant_defs(list(hyps2) + [goal2] + lem)
-    if defs:
-        gi = ground_def_instances(list(hyps2) + [goal2] + lem, defs)
-        lem = lem + gi
-        lem0 = lem0 + gi
+    defs = relevant_defs(list(hyps2) + [goal2])
+    gi = ground_def_instances(list(hyps2) + [goal2], defs) if defs else []
+    lem = spec_function_lemmas(list(hyps2) + gi, goal2) + gi
+    lem0 = spec_function_lemmas(list(hyps2) + gi, goal2, nonlinear=False) + gi
     qf_goal = not has_quantifier(goal2)
     if qf_goal:
         qf = [h for h in hyps2 if not has_quantifier(h)]
@@ -692,18 +834,23 @@ def prove1(hyps2, goal2, budget):
         r, s = _check(qf, goal2, lemq, 1500, mbqi=False, rlimit=RL)
         if r == z3.unsat:
             return "discharged", time.time() - t0, None, "z3 (quantifier-free hypotheses)"
-    if goal_is_nonlinear(goal2):
-        # phase A': products abstracted to an uninterpreted function (linear arithmetic + congruence only)
+    if qf_goal and goal_is_nonlinear(goal2):
+        # phase N: pure polynomial abstraction decided by nlsat
+        if nlsat_refutes(qf + lemq, goal2, max(5000, budget * 500)):
+            return "discharged", time.time() - t0, None, "z3 nlsat (polynomial abstraction of the quantifier-free hypotheses)"
+    if qf_goal and goal_is_nonlinear(goal2):
+        # phase A': products abstracted to an uninterpreted commutative function (linear arithmetic + congruence only),
+        # on the quantifier-free hypotheses (which include the instances at the goal's constants)
         try:
-            ab = abstract_mul(list(hyps2) + [goal2] + list(lem0) + relevant_defs(list(hyps2) + [goal2] + list(lem0)))
-            s_ = z3.Solver()
-            s_.set("timeout", 6000)
-            s_.set("smt.mbqi", False)
-            s_.add(*ab[:len(hyps2)])
-            s_.add(z3.Not(ab[len(hyps2)]))
-            s_.add(*ab[len(hyps2) + 1:])
-            if s_.check() == z3.unsat:
-                return "discharged", time.time() - t0, None, "z3 (products abstracted to an uninterpreted function)"
+            base = qf + [l for l in lem0 if not has_quantifier(l)]
+            for fl in (False, True):       # keep the grouping of nested products / flatten them to a canonical form
+                ab = abstract_mul(base + [goal2], flatten=fl)
+                s_ = z3.Solver()
+                s_.set("timeout", 6000)
+                s_.add(*ab[:-1])
+                s_.add(z3.Not(ab[-1]))
+                if s_.check() == z3.unsat:
+                    return "discharged", time.time() - t0, None, "z3 (products abstracted to an uninterpreted function)"
         except z3.Z3Exception:
             pass
     for seed in range(K):
@@ -812,6 +959,8 @@ class Eval:
 
     def ev_Constant(self, n, st):
         v = n.value
+        if v is Ellipsis:
+            raise Unsupported("bare Ellipsis")
         if isinstance(v, bool):
             return BoolV(v)
         if isinstance(v, int):
@@ -863,6 +1012,8 @@ class Eval:
                     raise Unsupported("attribute %s does not resolve" % q)
             # library module / function
             return ModOrFn(q)
+        if isinstance(base, ModOrFn):
+            return ModOrFn(base.qual + "." + n.attr)
         if isinstance(base, ClsV):
             if n.attr in enum_members(base.qual):
                 return enum_const(base.qual, n.attr)
@@ -1004,8 +1155,14 @@ class Eval:
             b = self.unopt(b, st, node)
         if isinstance(a, Seq) or isinstance(b, Seq):
             return self.seq_binop(op, a, b, st, node)
-        if isinstance(a, Tup) and isinstance(b, Tup) and isinstance(op, ast.Add):
+        if isinstance(a, Tup) and isinstance(b, Tup) and isinstance(op, ast.Add) and not (a.isrow or b.isrow):
             return Tup(a.items + b.items, islist=a.islist)
+        if (isinstance(a, Tup) and a.isrow) or (isinstance(b, Tup) and b.isrow):
+            # rows of 2-D arrays (and the 1-D arrays built from them): elementwise arithmetic with broadcasting
+            r = self.elem_binop(op, a, b, st, node)
+            if isinstance(r, Tup):
+                r.isrow = True
+            return r
         a = as_num(a)
         b = as_num(b)
         x, y, ints = num_pair(a, b)
@@ -1141,6 +1298,8 @@ class Eval:
                 if len(sl.elts) != 2:
                     raise Unsupported("n-d index")
                 r, c = sl.elts
+                if isinstance(r, ast.Constant) and r.value is Ellipsis:
+                    r = ast.Slice(None, None, None)
                 cv = self.ev(c, st)
                 if not (isinstance(cv, Num) and z3.is_int_value(cv.t)):
                     raise Unsupported("non-constant column index")
@@ -1170,6 +1329,8 @@ class Eval:
             i = self.index_term(base.n, iv, st, node)
             return base.at(i)
         if isinstance(base, Tup):
+            if isinstance(sl, ast.Tuple) and len(sl.elts) == 2 and isinstance(sl.elts[0], ast.Constant) and sl.elts[0].value is Ellipsis:
+                sl = sl.elts[1]        # row[..., k] is row[k]
             if isinstance(sl, ast.Slice):
                 lo = self.const_int(sl.lower, st, 0)
                 hi = self.const_int(sl.upper, st, len(base.items))
